@@ -160,7 +160,7 @@ inline void mutate(Rng& r, Msg& m)
 {
     std::string& s = m.bytes;
     if (s.empty()) return;
-    int k = static_cast<int>(r.below(12));
+    int k = static_cast<int>(r.below(15));
     size_t head_end = s.find("\r\n\r\n");
     size_t line_end = s.find("\r\n");
     auto pos_in = [&](size_t lo, size_t hi) { return lo + r.below(hi > lo ? hi - lo : 1); };
@@ -181,6 +181,10 @@ inline void mutate(Rng& r, Msg& m)
     case 8: { size_t p = s.find("Content-Length: "); if (p != std::string::npos) { s.insert(p + 16, r.chance(0.5) ? "99999999999999999999" : "-"); m.desc += "+bad-content-length"; } break; }
     case 9: s = token(r, 1, 9, "GETPOSXYZ") + s.substr(std::min<size_t>(3, s.size())); m.desc += "+method"; break;
     case 10: { size_t p = pos_in(0, s.size()); s[p] = static_cast<char>(r.below(256)); m.desc += "+random-byte"; break; }
+    // legal but unusual forms (RFC 7230): trailer fields after the last chunk, a chunk extension, empty lines before the start line
+    case 12: if (s.size() >= 5 && s.compare(s.size() - 5, 5, "0\r\n\r\n") == 0) { s.insert(s.size() - 2, r.chance(0.5) ? "X-Trailer: done\r\n" : "Expires: never\r\nX-T: 1\r\n"); m.desc += "+trailer"; } break;
+    case 13: if (head_end != std::string::npos) { size_t p = s.find("\r\n", head_end + 4); if (p != std::string::npos && s.find("chunked") != std::string::npos) { s.insert(p, r.chance(0.5) ? ";ext=1" : ";a"); m.desc += "+chunk-extension"; } } break;
+    case 14: s.insert(0, r.chance(0.7) ? "\r\n" : "\r\n\r\n"); m.desc += "+leading-crlf"; break;
     default: { size_t p = s.find(':'); if (p != std::string::npos) { s.erase(p, 1); m.desc += "+missing-colon"; } break; }
     }
 }
